@@ -97,6 +97,7 @@ class DecodedEval:
         self.ops = []             # opaque operator units {'u','cls','special','ins','val'}
         self.arith = []           # ring-interpreted units {'u','desc','ins','val'}
         self.structural = []      # (key, detail) problems found while decoding
+        self.rate_problems = []   # rate law (reported after value comparison)
         names = sorted(d.param_names, key=lambda t: t[1])
         consts = [rho.const(c) for c in d.constants]
         self.consts = consts
@@ -141,7 +142,7 @@ class DecodedEval:
             if cls in gg.ARITH_CLASSES:
                 want = max([wrate(w) for w in u.inputs], default=0)
                 if u.rate != want or u.out_rates != [u.rate]:
-                    self.structural.append((
+                    self.rate_problems.append((
                         f'C01/arith-rate-not-max/{cls}',
                         f'unit {u.index} {u!r}: input wire rates '
                         f'{[wrate(w) for w in u.inputs]}'))
@@ -188,7 +189,7 @@ class DecodedEval:
             if ent is not None and ent['eff'] == 'conv':
                 need = {'K2A': 2, 'A2K': 1}.get(cls)
                 if need is not None and u.rate != need:
-                    self.structural.append((f'C01/unit-rate/{cls}', repr(u)))
+                    self.rate_problems.append((f'C01/unit-rate/{cls}', repr(u)))
                 self.vals.append([ins[k] if k < len(ins) else 0
                                   for k in range(max(nout, 1))])
                 continue
@@ -274,7 +275,7 @@ def compare(prog, d, rho, gg, oc, stats):
                 stats['wires_compared'] += len(o['ins'])
 
     if not (bad_src or bad_dec or missing_ops):
-        return []
+        return dec.rate_problems[:1]
 
     # ---- diagnosis: name the mechanism --------------------------------------
     known = set(_flat(src.vals))
@@ -322,9 +323,9 @@ def compare(prog, d, rho, gg, oc, stats):
                      f'(all of its inputs are values of source expressions)')]
     for o in dec.ops:
         if o['val'] not in s_opvals and all(x in known for x in o['ins']):
-            return [(f'C01/wrong-operands/{o["desc"]}',
-                     f'unit {o["u"]!r}: no source operator has this opcode with '
-                     f'these operand values')]
+            return [('C01/wrong-operands/operator-unit',
+                     f'unit {o["u"]!r} {o["desc"]}: no source operator has this '
+                     f'opcode with these operand values')]
     # (c) same class and tag, other rate / other inputs
     def tag_of(u):
         return u.get('tag')
@@ -341,7 +342,7 @@ def compare(prog, d, rho, gg, oc, stats):
                     if x != y]
             if len(su['ins']) != len(du['ins']):
                 return [(f'C01/unit-input-count/{du["cls"]}', repr(du['u']))]
-            return [(f'C01/wire-differs/{du["cls"]}',
+            return [('C01/wire-differs/tagged-unit-input',
                      f'{du["u"]!r}: inputs {diff} do not carry the value of the '
                      f'source expression (node v{su["node"]})')]
     for u, s, lv, c in bad_src:
@@ -350,8 +351,8 @@ def compare(prog, d, rho, gg, oc, stats):
                      f'node v{u["node"]}: {s} in source, {c} in definition')]
         if LOST_IN_SORT:
             # refinement of the key only (internal probes, see install_counters)
-            return [('C01/unit-missing/lost-in-topological-sort'
-                     + ('+sub-of-same-neg-object' if SUB_SAME_OBJECT else ''),
+            return [('C01/unit-missing/lost-in-topological-sort/'
+                     + '+'.join(ORPHAN_KINDS or ['unknown']),
                      f'node v{u["node"]} {u["cls"]} ({u["eff"]}): {s} in source, '
                      f'{c} in definition; units that never became available in '
                      f'SynthDef._topological_sort: {LOST_IN_SORT}')]
@@ -369,7 +370,8 @@ def compare(prog, d, rho, gg, oc, stats):
 # counters of fired optimiser paths (evidence only)
 # ---------------------------------------------------------------------------
 LOST_IN_SORT = []     # names of units the last build's topological sort dropped
-SUB_SAME_OBJECT = []  # non-empty: the last build rewrote `n - n` with n = neg(..)
+ORPHAN_KINDS = []     # why units read by the graph were not part of it
+_HISTORY = {'removed': [], 'replaced': [], 'installed': []}
 
 
 def install_counters(fired):
@@ -380,24 +382,34 @@ def install_counters(fired):
     if orig_sort is not None:
         def sort_probe(self):
             before = list(self._children)
+            ids = {id(u) for u in before}
+            kinds = set()
+            for u in before:          # units the graph reads but does not hold
+                for x in u.inputs:
+                    if isinstance(x, ugn.OutputProxy):
+                        x = x.source_ugen
+                    if isinstance(x, ugn.SynthObject) and id(x) not in ids:
+                        if any(x is y for y in _HISTORY['removed']):
+                            kinds.add('removed-unit-still-read')
+                        elif any(x is y for y in _HISTORY['replaced']):
+                            kinds.add('replaced-unit-still-read')
+                        elif any(x is y for y in _HISTORY['installed']):
+                            kinds.add('superseded-replacement-still-read')
+                        else:
+                            kinds.add('never-installed-unit-read')
             orig_sort(self)
             after = {id(u) for u in self._children}
             LOST_IN_SORT[:] = [type(u).__name__ for u in before
                                if id(u) not in after]
+            ORPHAN_KINDS[:] = sorted(kinds)
         sdf.SynthDef._topological_sort = sort_probe
 
-    orig_sub = ugn.BinaryOpUGen.__dict__.get('_optimize_sub')
-    if orig_sub is not None:
-        def sub_probe(self):
-            try:
-                a, b = self.inputs
-                if a is b and isinstance(b, ugn.UnaryOpUGen) \
-                        and b.operator == 'neg' and len(b._descendants) == 1:
-                    SUB_SAME_OBJECT.append(1)
-            except Exception:
-                pass
-            return orig_sub(self)
-        ugn.BinaryOpUGen._optimize_sub = sub_probe
+    orig_remove = sdf.SynthDef.__dict__.get('_remove_ugen')
+    if orig_remove is not None:
+        def remove_probe(self, ugen):
+            _HISTORY['removed'].append(ugen)
+            return orig_remove(self, ugen)
+        sdf.SynthDef._remove_ugen = remove_probe
 
     def wrap_method(cls, name, label_of):
         orig = cls.__dict__.get(name)
@@ -427,6 +439,8 @@ def install_counters(fired):
 
     def rep_label(self, a, r):
         old, new = a[0], a[1]
+        _HISTORY['replaced'].append(old)
+        _HISTORY['installed'].append(new)
         oop = getattr(old, 'operator', None)
         if isinstance(new, ugn.BinaryOpUGen):
             return {('+', '-'): 'replace_addneg_to_sub',
@@ -453,7 +467,9 @@ def run_shard(spec, acc):
         sig = h64(json.dumps([prog['params'], prog['nodes']], sort_keys=True))
         f0 = sum(fired.values())
         LOST_IN_SORT[:] = []
-        SUB_SAME_OBJECT[:] = []
+        ORPHAN_KINDS[:] = []
+        for v in _HISTORY.values():
+            v[:] = []
         acc.count('programs_generated')
         acc.count('source_nodes', len(prog['nodes']))
         for ft in prog.get('features', ()):
